@@ -9,7 +9,8 @@ from .normalize import inline, local_env, expand, ctext
 from . import flow
 
 # helpers the rules key on (a call to them *is* the recognised construct): never inlined away
-ANCHOR_HELPERS = ('_find_node', '_find_all_nodes', '_get_node_ids_for_list', '_collect_nodeids', '_drop_edges_not_of_type')
+ANCHOR_HELPERS = ('_find_node', '_find_all_nodes', '_get_node_ids_for_list', '_collect_nodeids', '_drop_edges_not_of_type',
+                  '_filter_nodes_by_label', '_get_first_neighbors_via')
 
 
 def method(prog, cls, fn):
